@@ -6,7 +6,7 @@ TITLE = "state exclusion values are certified optima and decide antidistinguisha
 LEVEL = "exploration"
 BUDGET = {"quick": 80, "thorough": 900}
 ENGINES = ["E4-rtc"]
-TECHNIQUE = "run-time-checked contracts on the real functions over a bounded domain (bounded stand-in)"
+TECHNIQUE = "program contracts of the picos SDP builders and term contracts of the thin wrappers (VCs from the real AST, z3); frame clauses by taint analysis; run-time-checked contracts with weak-duality certificates over a bounded domain (bounded stand-in) for every value"
 LEVEL_TEXT = (
     "Bounded only; nothing is proved. Every clause calls the real state_exclusion / is_antidistinguishable / common_quantum_overlap (and trine, "
     "pusey_barrett_rudolph for the named sets) and compares with an oracle that does not re-run the function's SDP: the returned operators are checked to be a POVM "
@@ -713,6 +713,8 @@ from props.disc_prove import prove_for as _prove_for  # noqa: E402
 
 prove = _prove_for(ID)
 LEVEL_TEXT = LEVEL_TEXT + (" Proved (E1-term, callees by parameter name): is_antidistinguishable(states) == isclose(dual exclusion value with unit weights, 0) and common_quantum_overlap(states) == n (1 - (1 - v / n)) for that value v. The SDP values themselves are bounded checks.")
+LEVEL_TEXT = LEVEL_TEXT + (' Proved (E1-prog, 2 and 3 states, all dimensions and priors): each of the four builders of state_exclusion hands the solver exactly the stated program (min-error primal: min sum_i p_i <rho_i, M_i> s.t. M_i >= 0, sum M_i = I; dual: max Tr Y s.t. Y <= p_i rho_i; unambiguous primal: min <sum p_i rho_i, I - sum M> s.t. M_i >= 0, I - sum M >= 0, <M_i, p_i rho_i> = 0; dual: max 1 - Tr N s.t. N >= 0, N + a_i p_i rho_i >= sum_j p_j rho_j), solves it once and returns its optimum; the entry point dispatches as stated.')
+TRUSTED.append("E1-prog (program contracts): matrices and picos variables are uninterpreted terms; picos semantics assumed: A >> B / A << B are the Loewner-order constraints, A | B the Hilbert-Schmidt inner product, * the matrix product, picos.sum / trace / I / diag / partial_transpose what their names say, .real / np.real of a real affine expression the identity; linearity facts used as z3 axioms: <sA,B> = <A,sB> = s<A,B>, (sA)B = s(AB), Tr(sA) = s Tr(A), Tr(AB) = <A,B> for Hermitian A (to_density_matrix(.) and its real multiples and sums); the solver returns the optimum of the program it is handed (certified only on the bounded tier); number of states enumerated (2, 3; 4 thorough)")
 EXPLANATION = LEVEL_TEXT
 if "E1-pyvc" not in ENGINES:
     ENGINES = ["E1-pyvc"] + list(ENGINES)
